@@ -35,8 +35,8 @@ def mirror_desc(d):
     if w.get("kind") == "chamfer":
         c = w.get("cut", [0.1] * 4)
         w["cut"] = [c[3], c[2], c[1], c[0]]
-    if w.get("kind") == "tilt":
-        w["tilt"] = -w.get("tilt", 0.1)
+    # a 'tilt' wall (bottom edge rising by 2h to the right, top edge falling by 2h) is its own mirror
+    # image in the midplane: the tilt is *not* negated
     eq["wall"] = w
     m["options"] = {swap_lu(k): v for k, v in d["options"].items()}
     return m
